@@ -396,7 +396,8 @@ func (vc *VC) jump(fr *Frame, st *State, from, to *ssa.BasicBlock) []Outcome {
 	}
 	var lc *LoopContract
 	if li != nil && fr.contract != nil {
-		lc = fr.contract.Loops[li.Ordinal]
+		// the contract numbers the loops as they were when it was written (names.go: loopAlign)
+		lc = fr.contract.Loops[vc.eng.oldLoopOrdinal(fr.fn, li.Ordinal)]
 	}
 	if li != nil && lc == nil {
 		// a loop without a contract: try an automatically found one (autoinv.go); cached per frame and loop
